@@ -376,7 +376,74 @@ def hadamard3d(ctx):
         ctx.bad("R15.4", "hadamard3d", "not-recognised-as-elementwise", where, str(e))
 
 
+def shape_equality(ctx, rule="R15.2"):
+    """`Shape == Shape` (what every shape refusal rests on) is: same variant and every extent equal - decided on the E6
+    summary of <Shape as PartialEq>::eq: for every variant V the path on which both operands are V evaluates to the
+    conjunction of the component-wise equalities of ALL its fields; every path with different variants evaluates to false."""
+    from .. import e6
+    c = ctx.crate
+    fn = ctx.fn("<tensor::Shape as std::cmp::PartialEq>::eq")
+    E = e6.Exec(c, fn)
+    paths = [p for p in E.run_fn() if p.exit is None or p.exit[0] == "return"]
+    A, B = ("p", pat_binds(fn["params"][0])[0][0]), ("p", pat_binds(fn["params"][1])[0][0])
+
+    def conj(t, acc):
+        if isinstance(t, tuple) and t and t[0] == "bin" and t[1] == "And":
+            conj(t[2], acc)
+            conj(t[3], acc)
+        else:
+            acc.append(t)
+        return acc
+
+    def simplify(t, va, vb):
+        """expand vec == vec and discriminant == discriminant under the known variants"""
+        out = []
+        for a in conj(t, []):
+            if isinstance(a, tuple) and a[0] == "bin" and a[1] == "Eq":
+                l, r = a[2], a[3]
+                if isinstance(l, tuple) and isinstance(r, tuple) and l and r and l[0] == "vec" and r[0] == "vec":
+                    if len(l[1]) != len(r[1]):
+                        out.append(("lit", "false"))
+                    else:
+                        out += [e6.mk_bin("Eq", x, y) for x, y in zip(l[1], r[1])]
+                    continue
+                if e6.is_call(l, "discriminant", 1) is not None and e6.is_call(r, "discriminant", 1) is not None and {e6.is_call(l, "discriminant", 1)[0], e6.is_call(r, "discriminant", 1)[0]} == {A, B}:
+                    out.append(("lit", "true" if va == vb else "false"))
+                    continue
+            out.append(a)
+        if any(x == ("lit", "false") for x in out):
+            return [("lit", "false")]
+        return [x for x in out if x != ("lit", "true")]
+    for v in c.adts["tensor::Shape"]["variants"]:
+        vp = "tensor::Shape::" + v["name"]
+        mine = [p for p in paths if e6.variant_of(p).get(A) == vp and e6.variant_of(p).get(B) == vp]
+        n = len(v["fields"])
+        want = sorted(repr(e6.mk_bin("Eq", ("payload", A, vp, i), ("payload", B, vp, i))) for i in range(n))
+        ok = bool(mine)
+        got = "?"
+        for p in mine:
+            val = p.val if p.exit is None else p.exit[1]
+            g = sorted(repr(x) for x in simplify(val, vp, vp))
+            got = e6.show(val, 2)
+            if g != want:
+                ok = False
+        ctx.check(rule, "shape-equality:" + v["name"], ok, "shape-equality-is:" + short(got, 80), c.loc(fn),
+                  "%s == %s iff all %d extents are equal" % (v["name"], v["name"], n),
+                  "two %s shapes compare equal when `%s`; equality must compare all %d extents, otherwise operands of different shape are accepted" % (v["name"], got, n))
+    # different variants are never equal
+    okd = True
+    for p in paths:
+        va, vb = e6.variant_of(p).get(A), e6.variant_of(p).get(B)
+        if va is not None and vb is not None and va == vb:
+            continue
+        val = p.val if p.exit is None else p.exit[1]
+        if simplify(val, va or "?a", vb or "?b") != [("lit", "false")]:
+            okd = False
+    ctx.check(rule, "shape-equality:different-kinds", okd and bool(paths), "different-kinds-may-compare-equal", c.loc(fn), "shapes of different kinds are unequal")
+
+
 def run(ctx):
+    ctx.guard("R15.2", "shape-equality", shape_equality, ctx, "R15.2")
     for op, nested in (("add_inplace", ("Nested", "NestedOptional")), ("sub_inplace", ()), ("mul_inplace", ()), ("hadamard", ()),
                        ("div_scalar_inplace", ("Nested",)), ("mean_inplace", ()), ("clamp", ())):
         r = ctx.guard("R15.1", op, elementwise, ctx, op, nested)
